@@ -205,7 +205,11 @@ func (x *g) body(n int, helpers []string, free bool) []Stmt {
 		case p < 50:
 			s = x.stmtOf(x.eqArgs())
 		case p < 60 && len(helpers) > 0:
-			s = x.stmtOf(call("", helpers[x.r.Intn(len(helpers))]))
+			recv := ""
+			if x.r.Intn(5) == 0 {
+				recv = "this"
+			}
+			s = x.stmtOf(call(recv, helpers[x.r.Intn(len(helpers))]))
 		case p < 75:
 			s = x.stmtOf(x.plain())
 		case p < 83:
@@ -268,6 +272,10 @@ func (x *g) class(cls string, dirs []string, pkg []string, isTestish bool, k int
 		f.Imports = append(f.Imports, "static org.junit.Assert.*")
 	case 2:
 		f.Imports = append(f.Imports, "org.junit.Assert", "static org.junit.Assert.assertNotNull", "static org.mockito.Mockito.verify")
+	}
+	f.ClassAnnos = []Anno{}
+	if x.r.Intn(5) == 0 {
+		f.ClassAnnos = append(f.ClassAnnos, Anno{Name: "RunWith", Arg: "JUnit4.class"})
 	}
 	if x.r.Intn(2) == 0 {
 		f.Fields = append(f.Fields, "private Calc calc = new Calc()")
@@ -345,9 +353,9 @@ func gen(seed int64, n int, tier string) []interface{} {
 		maven := r.Intn(5) < 3
 		seen := map[string]bool{}
 		add := func(f File) {
-			key := strings.Join(f.Dirs, "/") + "/" + f.Name
-			if !seen[key] {
-				seen[key] = true
+			// one class of a name per tree (two classes p.CalcTest in one tree are not conventional)
+			if !seen[f.Name] {
+				seen[f.Name] = true
 				in.Files = append(in.Files, f)
 			}
 		}
